@@ -23,6 +23,7 @@ def exc : PyExc → Model.PyErr
   | .assertionError => .assertionError | .unicodeError => .unicodeError | .lookupError => .lookupError
   | .zeroDivisionError => .typeError
   | .stopIteration => .typeError | .fuelExhausted => .typeError
+  | .unboundLocalError => .typeError
 
 /-- result of translated code read as a result of the model -/
 def toR {α : Type} (x : M α) : Model.R α := x.mapError exc
